@@ -173,6 +173,7 @@ eav_init (eav_t *eav)
     eav->ascii_cb = NULL;
     eav->initialized = false;
     eav->errcode = EEAV_NO_ERROR;
+    eav->idnmsg = NULL;
     eav->result = NULL;
 }
 
